@@ -98,6 +98,8 @@ pub struct Gen<'a, 'd> {
     counters: HashSet<VarId>,
     /// closures may flow into declared function-typed positions
     esc_ok: bool,
+    /// spellings bound so far inside the pattern under construction
+    pat_names: Vec<String>,
 }
 
 fn is_printable_ty(t: &Ty) -> bool {
@@ -125,6 +127,7 @@ impl<'a, 'd> Gen<'a, 'd> {
             in_show: false,
             counters: HashSet::new(),
             esc_ok,
+            pat_names: vec![],
         }
     }
 
@@ -133,6 +136,20 @@ impl<'a, 'd> Gen<'a, 'd> {
     }
 
     // ------------------------------------------------------------ variables
+
+    /// a parameter: its spelling differs from the other parameters in `taken`
+    fn new_param(&mut self, ty: Ty, taken: &mut Vec<String>) -> VarId {
+        let mut v = self.new_var(ty.clone(), true);
+        let mut tries = 0;
+        while taken.contains(&self.p.vars[v as usize].spelling) {
+            self.scope.pop();
+            self.p.vars.pop();
+            tries += 1;
+            v = if tries > 4 { self.fresh_named("a", ty.clone()) } else { self.new_var(ty.clone(), true) };
+        }
+        taken.push(self.p.vars[v as usize].spelling.clone());
+        v
+    }
 
     fn new_var(&mut self, ty: Ty, known: bool) -> VarId {
         let spelling = if self.cfg.shadow {
@@ -779,7 +796,8 @@ impl<'a, 'd> Gen<'a, 'd> {
         self.label("closure");
         let saved = self.scope.len();
         let before: HashSet<VarId> = self.visible().into_iter().map(|(v, _)| v).collect();
-        let params: Vec<(VarId, Ty)> = ps.iter().map(|t| (self.new_var(t.clone(), true), t.clone())).collect();
+        let mut taken = vec![];
+        let params: Vec<(VarId, Ty)> = ps.iter().map(|t| (self.new_param(t.clone(), &mut taken), t.clone())).collect();
         let body = if fuel > 1 && self.d.chance(100) {
             self.block(r, fuel - 1)
         } else {
@@ -1024,7 +1042,16 @@ impl<'a, 'd> Gen<'a, 'd> {
                 if self.d.chance(60) {
                     // array_set(arr, i, v)
                     self.label("array");
-                    let arr = self.expr(t, fuel - 1);
+                    // the array argument's type must be known when the call is
+                    // typed (a variable, literal or call), see KF array_set
+                    let mut arr = self.expr(t, fuel - 1);
+                    if matches!(arr, Expr::If(..) | Expr::Match(..)) {
+                        if self.gates.gated("array_set:inferred-arg") {
+                            arr = self.leaf(t);
+                        } else {
+                            self.label("array_set:inferred-arg");
+                        }
+                    }
                     let idx = self.index_expr(*n, fuel);
                     let v = self.expr(et, fuel - 1);
                     Expr::Call(Callee::Builtin(Builtin::ArraySet), vec![arr, idx, v])
@@ -1112,21 +1139,39 @@ impl<'a, 'd> Gen<'a, 'd> {
     // -------------------------------------------------------------- matches
 
     /// a pattern for values of type `t`; binds variables (pushed on the scope)
+    /// a pattern variable whose spelling is new within the current pattern
+    fn pat_var(&mut self, t: &Ty) -> Pat {
+        let v = self.new_var(t.clone(), false);
+        let s = self.p.vars[v as usize].spelling.clone();
+        if self.pat_names.contains(&s) {
+            self.scope.pop();
+            self.p.vars.pop();
+            return Pat::Wild;
+        }
+        self.pat_names.push(s);
+        Pat::Var(v)
+    }
+
     fn pattern(&mut self, t: &Ty, depth: u32, refutable: bool) -> Pat {
+        self.pat_names.clear();
+        self.pattern_in(t, depth, refutable)
+    }
+
+    fn pattern_in(&mut self, t: &Ty, depth: u32, refutable: bool) -> Pat {
         let bind_w = 40;
         match t {
             _ if depth == 0 || self.d.chance(bind_w) => {
                 if self.d.chance(90) {
                     Pat::Wild
                 } else {
-                    Pat::Var(self.new_var(t.clone(), false))
+                    self.pat_var(t)
                 }
             }
             Ty::Unit => Pat::Unit,
             Ty::Bool if refutable => Pat::Bool(self.d.bool()),
             Ty::Int(k) if refutable => Pat::Int(*k, self.d.below(4) as i128),
             Ty::Str if refutable => Pat::Str(STRS[self.d.below(3)].to_string()),
-            Ty::Tuple(ts) => Pat::Tuple(ts.iter().map(|t| self.pattern(t, depth - 1, refutable)).collect()),
+            Ty::Tuple(ts) => Pat::Tuple(ts.iter().map(|t| self.pattern_in(t, depth - 1, refutable)).collect()),
             Ty::Adt(a, args) => {
                 let def = self.p.adts[*a].clone();
                 match &def.kind {
@@ -1134,7 +1179,7 @@ impl<'a, 'd> Gen<'a, 'd> {
                         let mut fs = vec![];
                         for (fi, (_, ft)) in fields.iter().enumerate() {
                             let ft = ft.subst(args);
-                            fs.push((fi as u32, self.pattern(&ft, depth - 1, refutable)));
+                            fs.push((fi as u32, self.pattern_in(&ft, depth - 1, refutable)));
                         }
                         Pat::Struct(*a, fs)
                     }
@@ -1145,7 +1190,7 @@ impl<'a, 'd> Gen<'a, 'd> {
                             .iter()
                             .map(|t| {
                                 let t = t.subst(args);
-                                self.pattern(&t, depth - 1, refutable)
+                                self.pattern_in(&t, depth - 1, refutable)
                             })
                             .collect();
                         Pat::Con(*a, vi as u32, ps, self.d.chance(60))
@@ -1157,7 +1202,7 @@ impl<'a, 'd> Gen<'a, 'd> {
                 if self.d.bool() {
                     Pat::Wild
                 } else {
-                    Pat::Var(self.new_var(t.clone(), false))
+                    self.pat_var(t)
                 }
             }
         }
@@ -1279,7 +1324,87 @@ impl<'a, 'd> Gen<'a, 'd> {
         ]
     }
 
+    /// `let x = f(args);` for a generated function (type arguments chosen here)
+    fn let_fn_call(&mut self, fuel: i32) -> Option<Vec<Stmt>> {
+        let cands: Vec<usize> = self
+            .callable
+            .iter()
+            .copied()
+            .filter(|f| self.p.fns[*f].name.starts_with('f'))
+            .collect();
+        if cands.is_empty() {
+            return None;
+        }
+        let f = cands[self.d.below(cands.len())];
+        let n = self.p.fns[f].tparams;
+        let targs: Vec<Ty> = (0..n)
+            .map(|_| if self.cfg.focus == Focus::Generics { self.ty(2) } else { self.ty(1) })
+            .collect();
+        if !targs.is_empty() {
+            self.label("generic-call");
+            if targs.iter().any(|t| !matches!(t, Ty::Int(_) | Ty::Bool | Ty::Str | Ty::Unit)) {
+                self.label("generic-call:composite");
+            }
+        } else {
+            self.label("call");
+        }
+        let ps: Vec<Ty> = self.p.fns[f].params.iter().map(|(_, t)| t.subst(&targs)).collect();
+        let ret = self.p.fns[f].ret.subst(&targs);
+        if ret.has_param() {
+            return None;
+        }
+        let args = self.call_args(&ps, fuel);
+        let v = self.new_var(ret.clone(), true);
+        Some(vec![Stmt::Let(Pat::Var(v), Some(ret), Expr::Call(Callee::Fn(f, targs), args))])
+    }
+
+    /// `let y = g(args);` for a function value in scope
+    fn let_val_call(&mut self, fuel: i32) -> Option<Vec<Stmt>> {
+        let mut cands = vec![];
+        for (v, _) in self.visible() {
+            if let Ty::Fn(ps, r) = self.var_ty(v).clone() {
+                if !r.has_param() && !ps.iter().any(|t| t.has_param()) {
+                    cands.push((v, ps, *r));
+                }
+            }
+        }
+        if cands.is_empty() {
+            return None;
+        }
+        let (v, ps, r) = cands[self.d.below(cands.len())].clone();
+        self.label("closure:call");
+        let args = self.call_args(&ps, fuel);
+        let ann = self.needs_annotation(&r, &Expr::Unit) || self.d.bool();
+        let nv = self.new_var(r.clone(), ann);
+        Some(vec![Stmt::Let(
+            Pat::Var(nv),
+            if ann { Some(r) } else { None },
+            Expr::Call(Callee::Val(Box::new(Expr::Var(v))), args),
+        )])
+    }
+
     fn stmt(&mut self, fuel: i32) -> Vec<Stmt> {
+        let call_w = match self.cfg.focus {
+            Focus::Generics => 40,
+            _ => 14,
+        };
+        let clo_w = match self.cfg.focus {
+            Focus::Closures => 40,
+            _ => 10,
+        };
+        match self.d.weighted(&[100, call_w, if self.cfg.closures { clo_w } else { 0 }]) {
+            1 => {
+                if let Some(s) = self.let_fn_call(fuel) {
+                    return s;
+                }
+            }
+            2 => {
+                if let Some(s) = self.let_val_call(fuel) {
+                    return s;
+                }
+            }
+            _ => {}
+        }
         let w = [
             40,                                     // let var
             10,                                     // destructuring let
@@ -1391,6 +1516,7 @@ impl<'a, 'd> Gen<'a, 'd> {
             params.push((self.fresh_named("p", t.clone()), t));
         }
         let n = self.d.below(3);
+        let mut taken: Vec<String> = vec![];
         for _ in 0..n {
             let t = if tparams > 0 && self.d.chance(60) {
                 // a type built from a parameter
@@ -1403,7 +1529,7 @@ impl<'a, 'd> Gen<'a, 'd> {
             } else {
                 self.ty(2)
             };
-            params.push((self.new_var(t.clone(), true), t));
+            params.push((self.new_param(t.clone(), &mut taken), t));
         }
         let ret = if tparams > 0 && self.d.chance(170) {
             let k = self.d.below(tparams as usize) as u32;
